@@ -149,7 +149,7 @@ func handlerProbes() []string {
 	verbs := []string{"PING", "001", "433", "NICK", "CAP", "410", "AUTHENTICATE", "903", "904", "908", "JOIN", "KICK", "MODE",
 		"PART", "QUIT", "TOPIC", "311", "324", "332", "352", "353", "671", "PRIVMSG", "NOTICE", "CTCP", "CTCPREPLY", "ACTION", "ERROR", "005"}
 	shapes := []string{"", " :", " x", " #c", " me", " a b c d e f g", " #c me", " #c other :text", " : ", " x :", " :x y z",
-		" * LS :", " * LS :a b sasl", " * ACK :sasl", " * ACK :-a", " * NAK :x", " +", " =", " +o", " #c +ov a", " #c +k", " #c -l+k",
+		" * LS :", " * LS :a b sasl", " * ACK :sasl", " * ACK :-a", " * NAK :x", " * LS :=sticky multi-prefix", " * ACK :=x", " * LS :a=b -c =", " * ACK :- -= =-", " * LS * :a b", " +", " =", " +o", " #c +ov a", " #c +k", " #c -l+k",
 		" me #c", " me #c +ntk", " me = #c :@a +b c", " me #c i h s other H* :0 real", " me #c i h s me G :0", " me other i h * :r",
 		" :\x01\x01", " x :\x01\x01\x01", " x :\x01VERSION\x01", " x :\x01PING\x01", " x :\x01PING 1\x01", " x :\x01ACTION\x01", " #c :\x01 \x01",
 		" VERSION", " PING", " PING x", " VERSION me", " PING me", " !", " ,", " ::", " :::", " \\ ", " me :Welcome me!i@h", " me :no host", " *", " * *"}
